@@ -870,4 +870,272 @@ theorem toMap_nodup (m : Entries) (h : (m.map Prod.fst).Nodup) : toMap m = m := 
   simpa [toMap] using this
 
 
+
+/-! ### characters outside the safe class: one-entry maps that do not come back -/
+
+def oneEntry (c : Char) : Entries := [(['k'], [c])]
+
+/-- the finitely many cases are evaluated -/
+def badOn (l : List Nat) : Bool :=
+  l.all fun n => decide (roundTrip (oneEntry (Char.ofNat n)) ≠ .ok (oneEntry (Char.ofNat n)))
+
+theorem badOn_spec (l : List Nat) (h : badOn l = true) (c : Char) (hc : c.toNat ∈ l) :
+    roundTrip (oneEntry c) ≠ .ok (oneEntry c) := by
+  simp only [badOn, List.all_eq_true, decide_eq_true_eq] at h
+  have := h c.toNat hc
+  rwa [Char.ofNat_toNat] at this
+
+theorem bad_controls : badOn [0, 1, 2, 3, 4, 5, 6, 7, 8, 11, 14, 15, 16, 17, 18, 19, 20, 21, 22, 23, 24,
+    25, 26, 27, 28, 29, 30, 31] = true := by decide +kernel
+
+theorem bad_latin1 : badOn (List.range' 0x80 128) = true := by decide +kernel
+
+theorem bad_specials : badOn cp1252High = true := by decide +kernel
+
+
+/-! the characters that get a `\u` escape from the encoder -/
+
+def IsHex (x : Char) : Prop := ∃ d, d < 16 ∧ x = hexDigitLower d
+
+theorem IsHex.plain {x : Char} (h : IsHex x) :
+    x.toNat < 0x80 ∧ x ≠ '\\' ∧ x ≠ '\r' ∧ x ≠ '\n' ∧ isWs x = false := by
+  obtain ⟨d, hd, rfl⟩ := h
+  have := hexDigitLower_plain d hd
+  exact ⟨this.1, this.2.1, this.2.2.2.2.2.1, this.2.2.2.2.2.2.1, this.2.2.2.2.2.2.2.2⟩
+
+theorem hexLower_three (n : Nat) (h1 : 0x100 ≤ n) (h2 : n < 0x1000) :
+    hexLower n = [hexDigitLower (n / 256), hexDigitLower (n / 16 % 16), hexDigitLower (n % 16)] := by
+  unfold hexLower
+  have e1 : ¬ n < 16 := by omega
+  have e2 : ¬ n / 16 < 16 := by omega
+  have e3 : n / 16 / 16 < 16 := by omega
+  simp only [hexLowerAux, e1, e2, e3, if_false, if_true]
+  have a1 : n / 16 / 16 = n / 256 := by omega
+  rw [a1]
+
+theorem hexLower_long (n : Nat) (h1 : 0x10000 ≤ n) (h2 : n < 0x1000000) :
+    ∃ a b c d e t, hexLower n = a :: b :: c :: d :: e :: t ∧ IsHex a ∧ IsHex b ∧ IsHex c ∧ IsHex d ∧
+      IsHex e ∧ (∀ x ∈ t, IsHex x) := by
+  unfold hexLower
+  have e1 : ¬ n < 16 := by omega
+  have e2 : ¬ n / 16 < 16 := by omega
+  have e3 : ¬ n / 16 / 16 < 16 := by omega
+  have e4 : ¬ n / 16 / 16 / 16 < 16 := by omega
+  by_cases e5 : n / 16 / 16 / 16 / 16 < 16
+  · simp only [hexLowerAux, e1, e2, e3, e4, e5, if_false, if_true]
+    exact ⟨_, _, _, _, _, [], rfl, ⟨_, e5, rfl⟩, ⟨_, by omega, rfl⟩, ⟨_, by omega, rfl⟩, ⟨_, by omega, rfl⟩,
+      ⟨_, by omega, rfl⟩, by simp⟩
+  · have e6 : n / 16 / 16 / 16 / 16 / 16 < 16 := by omega
+    simp only [hexLowerAux, e1, e2, e3, e4, e5, e6, if_false, if_true]
+    refine ⟨_, _, _, _, _, [_], rfl, ⟨_, e6, rfl⟩, ⟨_, by omega, rfl⟩, ⟨_, by omega, rfl⟩, ⟨_, by omega, rfl⟩,
+      ⟨_, by omega, rfl⟩, ?_⟩
+    intro x hx
+    simp only [List.mem_cons, List.not_mem_nil, or_false] at hx
+    exact ⟨_, by omega, hx⟩
+
+theorem cntFrom_snoc (n : Nat) (l : Str) (z : Char) (hz : z ≠ '\\') : cntFrom n (l ++ [z]) = 0 := by
+  rw [cntFrom_append]; simp [cntFrom, hz]
+
+theorem unescape_hex (t : Str) (h : ∀ x ∈ t, IsHex x) : unescape t = .ok t := by
+  induction t with
+  | nil => simp [unescape]
+  | cons x r ih =>
+    rw [unescape_plain x r (h x (by simp)).plain.2.1, ih (fun y hy => h y (by simp [hy]))]
+    rfl
+
+/-- one entry `k ↦ c` for a character the encoder escapes, with hexadecimal digits `ds`:
+    the file is `k=\u<ds>` and the reader sees the one line `k=\u<ds>` -/
+theorem roundTrip_escaped (c : Char) (ds i : Str) (z : Char)
+    (he : escapeChar c = [c]) (hn : cp1252Encode c = none) (hd : hexLower c.toNat = ds)
+    (hds : ∀ x ∈ ds, IsHex x) (hlast : ds = i ++ [z]) :
+    roundTrip (oneEntry c) =
+      (match unescape ('\\' :: 'u' :: ds) with
+       | .error x => .error x
+       | .ok v => .ok [(['k'], v)]) := by
+  have hz : IsHex z := hds z (by simp [hlast])
+  -- the bytes
+  have hbytes : writeBytes (oneEntry c) = ('k' :: '=' :: '\\' :: 'u' :: ds ++ ['\n']).map Char.toNat := by
+    have hlen : encLen [c] ≤ 256 := by
+      have : ds.length ≤ 8 := by
+        rw [← hd]; unfold hexLower
+        have : ∀ fuel n acc, (hexLowerAux fuel n acc).length ≤ fuel + acc.length := by
+          intro fuel
+          induction fuel with
+          | zero => intro n acc; simp [hexLowerAux]
+          | succ f ih =>
+            intro n acc
+            rw [hexLowerAux]
+            split
+            · simp; omega
+            · have := ih (n / 16) (hexDigitLower (n % 16) :: acc)
+              simp at this; omega
+        simpa using this 8 c.toNat []
+      have hl2 : encLen [c] = ds.length + 2 := by simp [encLen, hn, uEscape, hd]
+      omega
+    have e1 : escapeText ['k'] = ['k'] := by decide
+    have e2 : escapeText [c] = [c] := by simp [escapeText, he]
+    simp only [writeBytes, oneEntry, writeAll, writeEntry, encWrite, e1, e2]
+    rw [encGo_fits ['k'] 256 0 (by decide)]
+    simp only
+    rw [encGo_fits ['='] 256 0 (by decide)]
+    simp only
+    rw [encGo_fits [c] 256 0 (by omega)]
+    simp only
+    rw [encGo_fits ['\n'] 256 0 (by decide)]
+    simp [encIdeal, encIdealChar, hn, uEscape, hd, cp1252Encode_ascii]
+  have hascii : ∀ x ∈ 'k' :: '=' :: '\\' :: 'u' :: ds, x.toNat < 0x80 ∧ x ≠ '\r' ∧ x ≠ '\n' := by
+    intro x hx
+    simp only [List.mem_cons] at hx
+    rcases hx with rfl | rfl | rfl | rfl | hx
+    · decide
+    · decide
+    · decide
+    · decide
+    · have := (hds x hx).plain; exact ⟨this.1, this.2.2.1, this.2.2.2.1⟩
+  have hascii' : ∀ x ∈ 'k' :: '=' :: '\\' :: 'u' :: ds ++ ['\n'], x.toNat < 0x80 := by
+    intro x hx
+    simp only [List.cons_append, List.mem_cons, List.mem_append, List.not_mem_nil, or_false] at hx
+    rcases hx with rfl | rfl | rfl | rfl | hx | rfl
+    · decide
+    · decide
+    · decide
+    · decide
+    · exact (hds x hx).plain.1
+    · decide
+  have htext : writeProps (oneEntry c) = .ok ('k' :: '=' :: '\\' :: 'u' :: ds) := by
+    unfold writeProps
+    rw [hbytes, utf8Decode_ascii _ hascii']
+    simp only
+    have := trim_text ('k' :: '=' :: '\\' :: 'u' :: ds) ('k' :: '=' :: '\\' :: 'u' :: i) ('=' :: '\\' :: 'u' :: ds)
+      'k' z rfl (by simp [hlast]) (by decide) hz.plain.2.2.2.2
+    rw [show ('k' :: '=' :: '\\' :: 'u' :: ds ++ ['\n']) = ('k' :: '=' :: '\\' :: 'u' :: ds) ++ ['\n'] from rfl, this]
+  unfold roundTrip
+  rw [htext]
+  simp only
+  unfold loadProps
+  rw [decodeInput_ascii _ (fun x hx => (hascii x hx).1)]
+  have hl := natLines_line ('k' :: '=' :: '\\' :: 'u' :: ds) (fun x hx => (hascii x hx).2) [] []
+  rw [List.append_nil, List.nil_append] at hl
+  rw [hl]
+  have hc0 : countEndBs ('k' :: '=' :: '\\' :: 'u' :: ds) % 2 = 0 := by
+    rw [countEndBs_eq, hlast,
+      show ('k' :: '=' :: '\\' :: 'u' :: (i ++ [z])) = ('k' :: '=' :: '\\' :: 'u' :: i) ++ [z] from rfl,
+      cntFrom_snoc _ _ _ hz.plain.2.1]
+  have hlog : logicalLines (natLines false ('k' :: '=' :: '\\' :: 'u' :: ds) []) none
+      = ['k' :: '=' :: '\\' :: 'u' :: ds] := by
+    rw [natLines]
+    exact logicalLines_plain _ (by
+      intro l hl
+      simp only [List.mem_cons, List.not_mem_nil, or_false] at hl
+      subst hl
+      exact ⟨by simp [isCommentLine, isW], hc0⟩)
+  rw [hlog]
+  have hparse : parseLine ('k' :: '=' :: '\\' :: 'u' :: ds) = some (.pair ['k'] ('\\' :: 'u' :: ds)) := by
+    have hsp : spanKey ('k' :: '=' :: '\\' :: 'u' :: ds) = (['k'], '=' :: '\\' :: 'u' :: ds) := by
+      rw [spanKey_plain 'k' _ (by decide) (by decide) (by decide) (by decide)]
+      rw [spanKey.eq_def]; simp
+    unfold parseLine
+    have hk : isW 'k' = false := by decide
+    have hq : isW '=' = false := by decide
+    have hb : isW '\\' = false := by decide
+    simp [hk, hq, hb, hsp]
+  rw [readLines, hparse]
+  have huk : unescape ['k'] = .ok ['k'] := by decide
+  simp only [huk]
+  cases unescape ('\\' :: 'u' :: ds) with
+  | error x => rfl
+  | ok v => simp [readLines]
+
+
+theorem escapeChar_high (c : Char) (h1 : 0x100 ≤ c.toNat) : escapeChar c = [c] := by
+  have hne : ∀ k : Char, k.toNat < 0x100 → c ≠ k := fun k hk e => by subst e; omega
+  unfold escapeChar
+  rw [if_neg (hne _ (by decide)), if_neg (hne _ (by decide)), if_neg (hne _ (by decide)),
+    if_neg (hne _ (by decide)), if_neg (hne _ (by decide)), if_neg (hne _ (by decide)),
+    if_neg (hne _ (by decide)), if_neg (hne _ (by decide)), if_neg (hne _ (by decide)),
+    if_neg (hne _ (by decide)), if_neg (by omega)]
+
+theorem cp1252Encode_high (c : Char) (h1 : 0x100 ≤ c.toNat) (h2 : cp1252High.contains c.toNat = false) :
+    cp1252Encode c = none := by
+  unfold cp1252Encode
+  simp only
+  rw [if_neg (by omega), if_neg (by omega), h2]
+  simp
+
+theorem cp1252High_lt : ∀ x ∈ cp1252High, x < 0x10000 := by decide
+
+/-- every character outside the safe class breaks the round trip of the one-entry map `k ↦ c` -/
+theorem not_safe_bad (c : Char) (h : safeChar c = false) :
+    roundTrip (oneEntry c) ≠ .ok (oneEntry c) := by
+  simp only [safeChar, Bool.or_eq_false_iff] at h
+  obtain ⟨ha, hb⟩ := h
+  simp only [safeAsciiChar, Bool.or_eq_false_iff, Bool.and_eq_false_iff, decide_eq_false_iff_not] at ha
+  by_cases hsp : cp1252High.contains c.toNat = true
+  · exact badOn_spec _ bad_specials c (by simpa using hsp)
+  have hsp' : cp1252High.contains c.toNat = false := by simpa using hsp
+  by_cases h1 : c.toNat < 0x20
+  · apply badOn_spec _ bad_controls c
+    have : c.toNat ≠ 9 ∧ c.toNat ≠ 10 ∧ c.toNat ≠ 12 ∧ c.toNat ≠ 13 := by omega
+    simp only [List.mem_cons, List.not_mem_nil, or_false]
+    omega
+  by_cases h2 : c.toNat < 0x80
+  · omega
+  by_cases h3 : c.toNat < 0x100
+  · apply badOn_spec _ bad_latin1 c
+    rw [List.mem_range'_1]; omega
+  have h3' : 0x100 ≤ c.toNat := by omega
+  have he := escapeChar_high c h3'
+  have hn := cp1252Encode_high c h3' hsp'
+  by_cases h4 : c.toNat < 0x1000
+  · -- three digits: "not enough digits"
+    have hd := hexLower_three c.toNat h3' h4
+    have := roundTrip_escaped c _ [hexDigitLower (c.toNat / 256), hexDigitLower (c.toNat / 16 % 16)]
+      (hexDigitLower (c.toNat % 16)) he hn hd (by
+        intro x hx
+        simp only [List.mem_cons, List.not_mem_nil, or_false] at hx
+        rcases hx with rfl | rfl | rfl
+        · exact ⟨_, by omega, rfl⟩
+        · exact ⟨_, by omega, rfl⟩
+        · exact ⟨_, by omega, rfl⟩) rfl
+    rw [this, unescape.eq_def]
+    simp
+  by_cases h5 : c.toNat < 0x10000
+  · -- would be in the safe class
+    simp only [safeBmpChar, hsp', Bool.not_false, Bool.and_true, Bool.and_eq_false_iff,
+      decide_eq_false_iff_not] at hb
+    omega
+  · have hv := char_valid_nat c
+    obtain ⟨a, b, c2, d, e, t, hd, xa, xb, xc, xd, xe, xt⟩ := hexLower_long c.toNat (by omega) (by omega)
+    have hall : ∀ x ∈ a :: b :: c2 :: d :: e :: t, IsHex x := by
+      intro x hx
+      simp only [List.mem_cons] at hx
+      rcases hx with rfl | rfl | rfl | rfl | rfl | hx
+      · exact xa
+      · exact xb
+      · exact xc
+      · exact xd
+      · exact xe
+      · exact xt x hx
+    obtain ⟨i, z, hiz⟩ : ∃ i z, a :: b :: c2 :: d :: e :: t = i ++ [z] := by
+      rcases List.eq_nil_or_concat (a :: b :: c2 :: d :: e :: t) with h0 | ⟨i, z, h0⟩
+      · cases h0
+      · exact ⟨i, z, by simpa using h0⟩
+    have := roundTrip_escaped c _ i z he hn hd hall hiz
+    rw [this, unescape.eq_def]
+    simp only [if_true]
+    have hrest : unescape (e :: t) = .ok (e :: t) :=
+      unescape_hex _ (fun x hx => by
+        simp only [List.mem_cons] at hx
+        rcases hx with rfl | hx
+        · exact xe
+        · exact xt x hx)
+    rw [hrest]
+    cases hp : parseHex4 a b c2 d with
+    | none => simp
+    | some v =>
+      cases hq : charOfU16 v with
+      | none => simp [hq]
+      | some ch => simp [hq, oneEntry]
+
+
 end Duck.JProps
